@@ -42,6 +42,9 @@ fn main() {
         "expr" => streams::expr(&mut rng, count, false, &mut emit),
         "expr-mutated" => streams::expr(&mut rng, count, true, &mut emit),
         "prog-fault" => streams::prog_faulty(&mut rng, count, "fault", &mut emit),
+        "yo" => streams::yo(&mut rng, count, false, &mut emit),
+        "yo-malformed" => streams::yo(&mut rng, count, true, &mut emit),
+        "dump" => streams::dump(&mut rng, count, &mut emit),
         "disasm" => streams::disasm(&mut rng, count, &mut emit),
         "trace" => streams::trace(&mut rng, count, &mut emit),
         "run" => streams::run(&mut rng, count, &mut emit),
